@@ -7,7 +7,21 @@
 //!                overlapping rows, plus non-transactional statements and attempts to reuse finished ids;
 //!   threads    : real threads hammering a small table; shadow ownership map + commit-order oracle;
 //!   timeout    : lock expiry with a 1 s lock timeout (conflict demanded only within 0.3 s, release
-//!                demanded only after 10 s; everything in between is a don't-care window).
+//!                demanded only after 10 s; everything in between is a don't-care window);
+//!   scanrace   : real threads over tables of 500-6000 rows: transaction B runs ONE wide multi-row
+//!                tx_update / tx_delete (or the non-transactional update()/delete_rows()) and then commits
+//!                or rolls back, while 1-3 other threads run 1-3 small single-row transactions each
+//!                (explicit + commit, explicit + rollback, implicit) on rows B's condition matches -
+//!                updates of indexed columns, moves out of / into the set B's condition selects, deletes.
+//!                Both sides start at one barrier, so the small commits fall into B's call: before B's
+//!                unlocked scan reads the row, between that scan and B's row locks, or (refused with
+//!                LockConflict and retried) after B ended. Oracle at the quiescent point after every
+//!                round: rows only B touched are exactly B's effect (commit) or exactly as before
+//!                (rollback); a row a small transaction wrote must be explained by SOME position of B's
+//!                statement among that thread's statements - after a rollback of B that is one state only:
+//!                what the small transactions committed (a committed update is still there, a committed
+//!                delete stays deleted), whatever B's scan had seen; hash / ordered index queries on
+//!                every value involved must agree with the table; no locks, no transactions left.
 //!
 //! About one seq/interleave program in four runs with a tight `max_btree_entries` bound (the number of
 //! ordered-index keys after the initial load plus 0-2), so that inserts and updates legitimately fail
@@ -1488,6 +1502,719 @@ fn run_rollback_with_failing_undo(case_seed: u64, r: &mut Report) {
     r.eval(hash_combine(case_seed, 0x75), true);
 }
 
+// ------------------------------------------------------------------------------------------------
+// scanrace: a wide multi-row statement of one transaction races small committed writes of others
+// ------------------------------------------------------------------------------------------------
+//
+// tx_update / tx_delete find their rows with a scan that holds no lock and only then take the row
+// locks. Whatever another transaction commits on one of those rows between the scan and the lock is
+// part of the state the statement runs on: the pre-image (row and index values) that a later rollback
+// restores must be the row as it is once the lock is held. The seq/interleave parts drive every call
+// to completion from one thread, so nothing can happen inside a call; the threads part uses 4-16 row
+// tables where that window is a few hundred nanoseconds. Here the table has hundreds to thousands of
+// rows and the statement of transaction B matches a large share of them, so the window is wide, and
+// 1-3 other threads run small single-row transactions (explicit + commit, explicit + rollback, or the
+// implicit transaction of update()/delete_rows()) on rows B's statement matches, starting at the
+// same barrier.
+
+#[derive(Clone, Debug)]
+enum AEnd {
+    Commit,
+    Rollback,
+    Implicit,
+}
+
+#[derive(Clone, Debug)]
+struct AOp {
+    /// None = delete the row
+    set: Option<Vec<(usize, Value)>>,
+    end: AEnd,
+}
+
+#[derive(Clone, Debug)]
+enum BEnd {
+    Commit,
+    Rollback,
+    /// non-transactional update()/delete_rows(): the engine commits its internal transaction
+    Implicit,
+}
+
+struct AOut {
+    /// per op carried to a definite answer: did it find its row (Ok(1)) or not (Ok(0))
+    done: Vec<bool>,
+    /// (tick before begin, tick after commit/rollback returned) of attempts that found the row
+    spans: Vec<(u64, u64, bool)>,
+    conflicts: u64,
+    invisible: u64,
+    viol: Vec<(String, String)>,
+}
+
+struct BOut {
+    /// (tick before the call, tick after it returned, Ok(n) / None = LockConflict)
+    attempts: Vec<(u64, u64, Option<usize>)>,
+    ended_ok: bool,
+    viol: Vec<(String, String)>,
+}
+
+fn sr_apply(row: &mut [Value], cols: &[(usize, Value)]) {
+    for (ci, v) in cols {
+        row[*ci] = v.clone();
+    }
+}
+
+fn sr_same(a: &Option<Vec<Value>>, b: &Option<Vec<Value>>) -> bool {
+    match (a, b) {
+        (None, None) => true,
+        (Some(x), Some(y)) => x.len() == y.len() && x.iter().zip(y.iter()).all(|(p, q)| val_same(p, q)),
+        _ => false,
+    }
+}
+
+fn sr_updates(cols: &[(usize, Value)]) -> HashMap<String, Value> {
+    cols.iter().map(|(ci, v)| (COLS[*ci].to_string(), v.clone())).collect()
+}
+
+fn sr_spin(d: Duration) {
+    // workload shaping only: shifts the start of one side of the race
+    let t = Instant::now();
+    while t.elapsed() < d {
+        std::hint::spin_loop();
+    }
+}
+
+/// Every final state of one row (and whether A's ops found the row, and whether B's statement
+/// touched it) that some order "B's single statement somewhere among A's ops" explains.
+/// `b`: None = B left no effect (rolled back / statement never succeeded), Some(None) = committed
+/// delete, Some(Some(cols)) = committed update. With `lenient`, B's statement is also allowed to
+/// act on a row that matched its condition in an *earlier* state of this order (the statement says
+/// nothing about when a WHERE clause is evaluated).
+#[allow(clippy::type_complexity)]
+fn sr_explanations(id: u64, orig: &[Value], ops: &[(AOp, bool)], cond: &Condition, b: &Option<Option<Vec<(usize, Value)>>>) -> Vec<(Option<Vec<Value>>, Vec<bool>, bool)> {
+    let mut out = Vec::new();
+    let m = ops.len();
+    let positions: Vec<usize> = if b.is_some() { (0..=m).collect() } else { vec![0] };
+    for p in positions {
+        for lenient in [false, true] {
+            if lenient && b.is_none() {
+                continue;
+            }
+            let mut st: Option<Vec<Value>> = Some(orig.to_vec());
+            let mut flags = Vec::new();
+            let mut matched_earlier = false;
+            let mut touched = false;
+            for i in 0..=m {
+                if i == p {
+                    if let (Some(bk), Some(row)) = (b, st.clone()) {
+                        let now = cond.evaluate(&mk_row(id, &row));
+                        if now || (lenient && matched_earlier) {
+                            touched = true;
+                            match bk {
+                                None => st = None,
+                                Some(cols) => {
+                                    let mut r2 = row;
+                                    sr_apply(&mut r2, cols);
+                                    st = Some(r2);
+                                }
+                            }
+                        }
+                    }
+                }
+                if i == m {
+                    break;
+                }
+                if let Some(row) = &st {
+                    if cond.evaluate(&mk_row(id, row)) {
+                        matched_earlier = true;
+                    }
+                }
+                let (op, _) = &ops[i];
+                match &mut st {
+                    None => flags.push(false),
+                    Some(row) => {
+                        flags.push(true);
+                        if !matches!(op.end, AEnd::Rollback) {
+                            match &op.set {
+                                None => st = None,
+                                Some(cols) => sr_apply(row, cols),
+                            }
+                        }
+                    }
+                }
+            }
+            out.push((st, flags, touched));
+        }
+    }
+    out
+}
+
+fn run_scanrace(case_seed: u64, big: bool, stop_at: Option<Instant>, r: &mut Report) {
+    use std::sync::Barrier;
+    let replay = json!({"part": if big { "scanrace-big" } else { "scanrace" }, "case_seed": case_seed});
+    let mut rng = Rng::new(case_seed);
+    let e = RelationalEngine::with_config(cfg(10_000_000));
+    if e.create_table(T, schema()).is_err() {
+        r.inconclusive("scanrace: create_table failed");
+        return;
+    }
+    let n_rows = if big { 1_500 + rng.below(4_500) } else { 500 + rng.below(2_000) };
+    let groups = ["g0", "g1", "g2", "out"];
+    let mut hash_idx: Vec<&str> = Vec::new();
+    let mut btree_idx: Vec<&str> = Vec::new();
+    let pre = rng.bool();
+    let mut plan_h = Vec::new();
+    let mut plan_b = Vec::new();
+    for c in ["v", "s", "f", "k"] {
+        if rng.chance(1, 2) {
+            plan_h.push(c);
+        }
+        if c != "s" && rng.chance(2, 5) {
+            plan_b.push(c);
+        }
+    }
+    let ddl = |hash_idx: &mut Vec<&'static str>, btree_idx: &mut Vec<&'static str>| {
+        for c in &plan_h {
+            if e.create_index(T, c).is_ok() {
+                hash_idx.push(*c);
+            }
+        }
+        for c in &plan_b {
+            if e.create_btree_index(T, c).is_ok() {
+                btree_idx.push(*c);
+            }
+        }
+    };
+    if pre {
+        ddl(&mut hash_idx, &mut btree_idx);
+    }
+    let mut rows: BTreeMap<u64, Vec<Value>> = BTreeMap::new();
+    let mut next_k = 0i64;
+    let fresh_row = |next_k: &mut i64, rng: &mut Rng| -> Vec<Value> {
+        let k = *next_k;
+        *next_k += 1;
+        let g = if rng.chance(1, 8) { "out" } else { groups[(k % 3) as usize] };
+        vec![Value::Int(k), Value::Int(k % 11), Value::String(g.to_string()), Value::Float(0.5 + (k % 7) as f64)]
+    };
+    for _ in 0..n_rows {
+        let vals = fresh_row(&mut next_k, &mut rng);
+        match e.insert(T, to_map(&vals)) {
+            Ok(id) => {
+                rows.insert(id, vals);
+            }
+            Err(_) => {
+                r.inconclusive("scanrace: initial insert failed");
+                return;
+            }
+        }
+    }
+    if !pre {
+        ddl(&mut hash_idx, &mut btree_idx);
+    }
+    // how long one pass over the table takes here (only used to place the start of one side)
+    let t_scan = {
+        let t = Instant::now();
+        let _ = e.select(T, Condition::True);
+        t.elapsed()
+    };
+    let n_rounds = 8 + rng.below(12);
+    let mut token = 1_000i64;
+    let mut next_token = || {
+        token += 1;
+        token
+    };
+    let snapshot_of = |e: &RelationalEngine| -> Result<BTreeMap<u64, Vec<Value>>, String> {
+        let got = e.select(T, Condition::True).map_err(|er| format!("{:?}", er))?;
+        let mut m = BTreeMap::new();
+        for row in got {
+            let mut vals = Vec::with_capacity(4);
+            for c in COLS {
+                match row.values.iter().find(|(n, _)| n == c) {
+                    Some((_, v)) => vals.push(v.clone()),
+                    None => return Err(format!("row {} has no column {}", row.id, c)),
+                }
+            }
+            if m.insert(row.id, vals).is_some() {
+                return Err(format!("select(True) returns row {} twice", row.id));
+            }
+        }
+        Ok(m)
+    };
+
+    for round in 0..n_rounds {
+        // ---- plan the round
+        let live: Vec<u64> = rows.keys().copied().collect();
+        // the budget only ends the workload (every finished round has been judged completely)
+        if live.len() < 50 || stop_at.is_some_and(|t| Instant::now() > t) {
+            break;
+        }
+        let kmax = next_k;
+        let cond = match rng.below(6) {
+            0 | 1 => Condition::Eq("s".into(), Value::String(groups[rng.below(3)].to_string())),
+            2 => Condition::Ne("s".into(), Value::String("out".to_string())),
+            3 => {
+                let lo = rng.range(0, kmax / 2);
+                let hi = lo + kmax / 4 + rng.range(0, kmax / 2);
+                Condition::Ge("k".into(), Value::Int(lo)).and(Condition::Lt("k".into(), Value::Int(hi)))
+            }
+            4 => Condition::Eq("s".into(), Value::String(groups[rng.below(3)].to_string())).or(Condition::Eq("s".into(), Value::String(groups[rng.below(3)].to_string()))),
+            _ => Condition::True,
+        };
+        let b_tok = next_token();
+        let b_kind: Option<Vec<(usize, Value)>> = if rng.chance(3, 10) {
+            None
+        } else {
+            Some(match rng.below(3) {
+                0 => vec![(3, Value::Float(b_tok as f64))],
+                1 => vec![(1, Value::Int(b_tok))],
+                _ => vec![(1, Value::Int(b_tok)), (3, Value::Float(b_tok as f64))],
+            })
+        };
+        let b_end = match rng.below(10) {
+            0..=5 => BEnd::Rollback,
+            6..=8 => BEnd::Commit,
+            _ => BEnd::Implicit,
+        };
+        // a committed wide delete shrinks the table a lot: keep those rare
+        let b_end = if b_kind.is_none() && !matches!(b_end, BEnd::Rollback) && rng.chance(2, 3) { BEnd::Rollback } else { b_end };
+        let matching: Vec<u64> = live.iter().copied().filter(|id| cond.evaluate(&mk_row(*id, &rows[id]))).collect();
+        let n_a = 1 + rng.below(3);
+        let mut targets: Vec<u64> = Vec::new();
+        for _ in 0..n_a {
+            for _try in 0..8 {
+                let id = if !matching.is_empty() && rng.chance(5, 6) { matching[rng.below(matching.len())] } else { live[rng.below(live.len())] };
+                if !targets.contains(&id) {
+                    targets.push(id);
+                    break;
+                }
+            }
+        }
+        let mut a_plans: Vec<(u64, i64, Vec<AOp>)> = Vec::new();
+        for id in &targets {
+            let k = match rows[id][0] {
+                Value::Int(k) => k,
+                _ => 0,
+            };
+            let n_ops = 1 + rng.below(3);
+            let mut ops = Vec::new();
+            for _ in 0..n_ops {
+                let tok = next_token();
+                let end = match rng.below(10) {
+                    0..=4 => AEnd::Commit,
+                    5..=7 => AEnd::Implicit,
+                    _ => AEnd::Rollback,
+                };
+                let op = if !matches!(end, AEnd::Rollback) && rng.chance(1, 5) {
+                    AOp { set: None, end }
+                } else {
+                    let mut cols = vec![(1usize, Value::Int(tok))];
+                    if rng.chance(1, 3) {
+                        cols.push((3, Value::Float(tok as f64)));
+                    }
+                    // a rolled-back write never touches what B's condition reads (no isolation level is demanded)
+                    if !matches!(end, AEnd::Rollback) && rng.chance(1, 3) {
+                        cols.push((2, Value::String(groups[rng.below(4)].to_string())));
+                    }
+                    if rng.chance(1, 6) {
+                        cols.remove(0);
+                        if cols.is_empty() {
+                            cols.push((3, Value::Float(tok as f64)));
+                        }
+                    }
+                    AOp { set: Some(cols), end }
+                };
+                let is_del = op.set.is_none();
+                ops.push(op);
+                if is_del {
+                    break;
+                }
+            }
+            a_plans.push((*id, k, ops));
+        }
+        // who starts late, and by how much of one table pass
+        let late = rng.below(4);
+        let frac = rng.below(100) as u32;
+        let delay = t_scan * frac / 100;
+        let (delay_a, delay_b) = match late {
+            0 => (delay, Duration::ZERO),
+            1 => (Duration::ZERO, delay),
+            _ => (Duration::ZERO, Duration::ZERO),
+        };
+
+        // ---- run it
+        let tick = AtomicU64::new(1);
+        let b_done = AtomicBool::new(false);
+        let barrier = Barrier::new(a_plans.len() + 1);
+        let (b_out, a_outs): (BOut, Vec<AOut>) = std::thread::scope(|s| {
+            let hb = {
+                let (e, tick, b_done, barrier, cond, b_kind, b_end) = (&e, &tick, &b_done, &barrier, &cond, &b_kind, &b_end);
+                s.spawn(move || {
+                    let mut out = BOut { attempts: Vec::new(), ended_ok: true, viol: Vec::new() };
+                    barrier.wait();
+                    sr_spin(delay_b);
+                    let tx = if matches!(b_end, BEnd::Implicit) { None } else { Some(e.begin_transaction()) };
+                    for _attempt in 0..4 {
+                        let t0 = tick.fetch_add(1, Ordering::SeqCst);
+                        let res = match (tx, b_kind) {
+                            (Some(tx), Some(cols)) => e.tx_update(tx, T, cond.clone(), sr_updates(cols)),
+                            (Some(tx), None) => e.tx_delete(tx, T, cond.clone()),
+                            (None, Some(cols)) => e.update(T, cond.clone(), sr_updates(cols)),
+                            (None, None) => e.delete_rows(T, cond.clone()),
+                        };
+                        let t1 = tick.fetch_add(1, Ordering::SeqCst);
+                        match res {
+                            Ok(n) => {
+                                out.attempts.push((t0, t1, Some(n)));
+                                break;
+                            }
+                            Err(RelationalError::LockConflict { .. }) => {
+                                out.attempts.push((t0, t1, None));
+                                std::thread::yield_now();
+                            }
+                            Err(er) => {
+                                out.viol.push((format!("scanrace:unexpected-error:{}", err_name(&er)), format!("the wide statement ({}) failed: {:?}", if b_kind.is_some() { "update" } else { "delete" }, er)));
+                                break;
+                            }
+                        }
+                    }
+                    if let Some(tx) = tx {
+                        let res = if matches!(b_end, BEnd::Commit) { e.commit(tx) } else { e.rollback(tx) };
+                        if let Err(er) = res {
+                            out.ended_ok = false;
+                            out.viol.push((format!("scanrace:{}-failed:{}", if matches!(b_end, BEnd::Commit) { "commit" } else { "rollback" }, err_name(&er)), format!("{:?}", er)));
+                        }
+                    }
+                    b_done.store(true, Ordering::SeqCst);
+                    out
+                })
+            };
+            let has: Vec<_> = a_plans
+                .iter()
+                .map(|(id, k, ops)| {
+                    let (e, tick, b_done, barrier) = (&e, &tick, &b_done, &barrier);
+                    let (id, k) = (*id, *k);
+                    s.spawn(move || {
+                        let mut out = AOut { done: Vec::new(), spans: Vec::new(), conflicts: 0, invisible: 0, viol: Vec::new() };
+                        let c = Condition::Eq("k".into(), Value::Int(k));
+                        barrier.wait();
+                        sr_spin(delay_a);
+                        'ops: for op in ops {
+                            loop {
+                                // read before the attempt: if B had ended by then, this attempt is final
+                                let b_was_done = b_done.load(Ordering::SeqCst);
+                                let t0 = tick.fetch_add(1, Ordering::SeqCst);
+                                let res: Result<usize, RelationalError> = match op.end {
+                                    AEnd::Implicit => match &op.set {
+                                        Some(cols) => e.update(T, c.clone(), sr_updates(cols)),
+                                        None => e.delete_rows(T, c.clone()),
+                                    },
+                                    AEnd::Commit | AEnd::Rollback => {
+                                        let tx = e.begin_transaction();
+                                        let res = match &op.set {
+                                            Some(cols) => e.tx_update(tx, T, c.clone(), sr_updates(cols)),
+                                            None => e.tx_delete(tx, T, c.clone()),
+                                        };
+                                        let end = if res.is_ok() && matches!(op.end, AEnd::Commit) { e.commit(tx) } else { e.rollback(tx) };
+                                        if let Err(er) = end {
+                                            out.viol.push((format!("scanrace:end-of-small-transaction-failed:{}", err_name(&er)), format!("{:?}", er)));
+                                            break 'ops;
+                                        }
+                                        res
+                                    }
+                                };
+                                let t1 = tick.fetch_add(1, Ordering::SeqCst);
+                                match res {
+                                    Ok(1) => {
+                                        out.done.push(true);
+                                        out.spans.push((t0, t1, !matches!(op.end, AEnd::Rollback)));
+                                        if op.set.is_none() {
+                                            break 'ops;
+                                        }
+                                        break;
+                                    }
+                                    Ok(0) => {
+                                        // the row is not there, or another active transaction has deleted it for now
+                                        if b_was_done {
+                                            out.done.push(false);
+                                            break;
+                                        }
+                                        out.invisible += 1;
+                                        std::thread::yield_now();
+                                    }
+                                    Ok(n) => {
+                                        out.viol.push(("scanrace:wrong-affected-count".into(), format!("a write on Eq(k,{}) (k is unique, row {}) affected {} rows", k, id, n)));
+                                        break 'ops;
+                                    }
+                                    Err(RelationalError::LockConflict { blocking_tx, row_id, .. }) => {
+                                        if b_was_done {
+                                            out.viol.push((
+                                                "scanrace:lock-conflict-after-every-other-holder-ended".into(),
+                                                format!("write on Eq(k,{}) (row {}) got LockConflict(blocking_tx={}, row={}) although the only other transaction that ever touched this row had already returned from commit/rollback before the attempt began", k, id, blocking_tx, row_id),
+                                            ));
+                                            break 'ops;
+                                        }
+                                        out.conflicts += 1;
+                                        std::thread::yield_now();
+                                    }
+                                    Err(er) => {
+                                        out.viol.push((format!("scanrace:unexpected-error:{}", err_name(&er)), format!("write on Eq(k,{}) failed: {:?}", k, er)));
+                                        break 'ops;
+                                    }
+                                }
+                            }
+                        }
+                        out
+                    })
+                })
+                .collect();
+            let b_out = hb.join().expect("scanrace B thread");
+            let a_outs = has.into_iter().map(|h| h.join().expect("scanrace A thread")).collect();
+            (b_out, a_outs)
+        });
+
+        // ---- judge it (everything has ended: quiescent)
+        let describe = |extra: &str| -> String {
+            let b_desc = format!(
+                "B = {} {:?}{} then {:?}; statement attempts {:?}",
+                if b_kind.is_some() { "update" } else { "delete" },
+                cond,
+                b_kind.as_ref().map_or(String::new(), |c| format!(" set {:?}", c.iter().map(|(ci, v)| (COLS[*ci], v.clone())).collect::<Vec<_>>())),
+                b_end,
+                b_out.attempts.iter().map(|(_, _, n)| n.map_or("LockConflict".to_string(), |n| format!("Ok({})", n))).collect::<Vec<_>>()
+            );
+            let a_desc: Vec<String> = a_plans
+                .iter()
+                .zip(a_outs.iter())
+                .map(|((id, k, ops), o)| {
+                    format!(
+                        "A on row {} (k={}): {:?} found-row={:?} lock-conflicts-before={} ",
+                        id,
+                        k,
+                        ops.iter().map(|op| format!("{}{:?}", op.set.as_ref().map_or("delete".to_string(), |c| format!("set {:?} ", c.iter().map(|(ci, v)| (COLS[*ci], v.clone())).collect::<Vec<_>>())), op.end)).collect::<Vec<_>>(),
+                        o.done,
+                        o.conflicts
+                    )
+                })
+                .collect();
+            format!("{} || round {} of a {}-row table, hash indexes {:?}, ordered indexes {:?}; {}; {}", extra, round, n_rows, hash_idx, btree_idx, b_desc, a_desc.join("; "))
+        };
+        let mut viols: Vec<(String, String)> = b_out.viol.clone();
+        for o in &a_outs {
+            viols.extend(o.viol.iter().cloned());
+        }
+        if !viols.is_empty() {
+            for (sig, d) in viols {
+                r.violation(sig, describe(&d), replay.clone());
+            }
+            return;
+        }
+        let locks = e.tx_manager().active_lock_count();
+        let act = e.active_transaction_count();
+        if locks != 0 || act != 0 {
+            r.violation("quiescent:locks-or-transactions-left", describe(&format!("scanrace: active_lock_count={} active_transaction_count={}", locks, act)), replay);
+            return;
+        }
+        let snap = match snapshot_of(&e) {
+            Ok(s) => s,
+            Err(d) => {
+                r.violation("scanrace:select-failed", describe(&d), replay);
+                return;
+            }
+        };
+        let b_n: Option<usize> = b_out.attempts.iter().find_map(|(_, _, n)| *n);
+        // the effect B's transaction leaves behind: Some(None) delete, Some(Some(cols)) update
+        let b_eff: Option<Option<Vec<(usize, Value)>>> = if b_n.is_some() && !matches!(b_end, BEnd::Rollback) { Some(b_kind.clone()) } else { None };
+        let mut expected: BTreeMap<u64, Vec<Value>> = BTreeMap::new();
+        let mut b_rows_lo = 0usize;
+        let mut b_rows_hi = 0usize;
+        for (id, vals) in &rows {
+            if targets.contains(id) {
+                continue;
+            }
+            let m = cond.evaluate(&mk_row(*id, vals));
+            if m {
+                b_rows_lo += 1;
+                b_rows_hi += 1;
+            }
+            let want: Option<Vec<Value>> = match (&b_eff, m) {
+                (Some(None), true) => None,
+                (Some(Some(cols)), true) => {
+                    let mut v = vals.clone();
+                    sr_apply(&mut v, cols);
+                    Some(v)
+                }
+                _ => Some(vals.clone()),
+            };
+            let got = snap.get(id).cloned();
+            if !sr_same(&want, &got) {
+                let sig = if b_eff.is_none() { "scanrace:row-of-rolled-back-statement-not-as-before" } else { "scanrace:row-of-committed-statement-wrong" };
+                r.violation(sig, describe(&format!("row {} (no other transaction wrote it this round) was {:?} before the round, is {:?}, should be {:?}", id, vals, got, want)), replay);
+                return;
+            }
+            if let Some(v) = want {
+                expected.insert(*id, v);
+            }
+        }
+        for ((id, _k, ops), o) in a_plans.iter().zip(a_outs.iter()) {
+            let orig = rows[id].clone();
+            let done_ops: Vec<(AOp, bool)> = ops.iter().cloned().zip(o.done.iter().copied()).collect();
+            let got = snap.get(id).cloned();
+            let expl = sr_explanations(*id, &orig, &done_ops, &cond, &b_eff);
+            let fits: Vec<&(Option<Vec<Value>>, Vec<bool>, bool)> = expl.iter().filter(|(st, flags, _)| sr_same(st, &got) && *flags == o.done).collect();
+            if fits.is_empty() {
+                let strict: Vec<String> = expl.iter().map(|(st, flags, _)| format!("{:?} with found-row={:?}", st, flags)).collect();
+                let a_committed_something = done_ops.iter().any(|(op, found)| *found && !matches!(op.end, AEnd::Rollback));
+                let a_deleted = done_ops.iter().any(|(op, found)| *found && op.set.is_none());
+                let sig = if b_eff.is_none() && a_deleted && got.is_some() {
+                    "scanrace:row-deleted-by-committed-transaction-is-back-after-rollback-of-another"
+                } else if b_eff.is_none() && a_committed_something && sr_same(&got, &Some(orig.clone())) {
+                    "scanrace:committed-write-undone-by-rollback-of-another-transaction"
+                } else if b_eff.is_none() {
+                    "scanrace:row-differs-after-rollback-of-another-transaction"
+                } else if a_deleted && got.is_some() {
+                    "scanrace:row-deleted-by-committed-transaction-is-back-after-commit-of-another"
+                } else {
+                    "scanrace:row-after-both-ended-explained-by-no-order"
+                };
+                r.violation(sig, describe(&format!("row {} was {:?} before the round and is {:?} now; every order of the statements gives one of: {}", id, orig, got, strict.join(" | "))), replay);
+                return;
+            }
+            if fits.iter().any(|f| f.2) {
+                b_rows_hi += 1;
+            }
+            if fits.iter().all(|f| f.2) {
+                b_rows_lo += 1;
+            }
+            if let Some(v) = got {
+                expected.insert(*id, v);
+            }
+            r.count("scanrace_target_rows_judged", 1);
+        }
+        if let Some(extra) = snap.keys().find(|id| !expected.contains_key(id)) {
+            r.violation("scanrace:row-should-not-exist", describe(&format!("row {} {:?} exists", extra, snap[extra])), replay);
+            return;
+        }
+        if let Some(n) = b_n {
+            if b_eff.is_none() {
+                // rolled back: which of the other transactions' rows it had locked cannot be seen any more
+                b_rows_hi = b_rows_lo + targets.len();
+            }
+            if n < b_rows_lo || n > b_rows_hi {
+                r.violation("scanrace:wrong-affected-count", describe(&format!("the wide statement reported {} rows; between {} and {} rows can have been affected", n, b_rows_lo, b_rows_hi)), replay);
+                return;
+            }
+        }
+        // queries answered through the indexes agree with the table
+        let mut conds: Vec<Condition> = Vec::new();
+        for (id, k, ops) in &a_plans {
+            let orig = &rows[id];
+            conds.push(Condition::Eq("k".into(), Value::Int(*k)));
+            conds.push(Condition::Eq("v".into(), orig[1].clone()));
+            conds.push(Condition::Eq("f".into(), orig[3].clone()));
+            conds.push(Condition::Eq("s".into(), orig[2].clone()));
+            for op in ops {
+                for (ci, v) in op.set.iter().flatten() {
+                    conds.push(Condition::Eq(COLS[*ci].into(), v.clone()));
+                    if *ci != 2 {
+                        conds.push(Condition::Ge(COLS[*ci].into(), v.clone()).and(Condition::Le(COLS[*ci].into(), v.clone())));
+                        conds.push(Condition::Ge(COLS[*ci].into(), v.clone()));
+                    }
+                }
+            }
+        }
+        for (ci, v) in b_kind.iter().flatten() {
+            conds.push(Condition::Eq(COLS[*ci].into(), v.clone()));
+            conds.push(Condition::Ge(COLS[*ci].into(), v.clone()));
+        }
+        let mut seen: BTreeSet<String> = BTreeSet::new();
+        conds.retain(|c| seen.insert(format!("{:?}", c)));
+        for c in conds.into_iter().take(24) {
+            let want: BTreeSet<u64> = snap.iter().filter(|(id, v)| c.evaluate(&mk_row(**id, v))).map(|(id, _)| *id).collect();
+            match e.select(T, c.clone()) {
+                Ok(got_rows) => {
+                    let ids: Vec<u64> = got_rows.iter().map(|x| x.id).collect();
+                    let got: BTreeSet<u64> = ids.iter().copied().collect();
+                    if got != want || got.len() != ids.len() {
+                        let path = match &c {
+                            Condition::Eq(col, _) if hash_idx.contains(&col.as_str()) => "hash-index",
+                            Condition::Eq(col, _) | Condition::Ge(col, _) if btree_idx.contains(&col.as_str()) => "ordered-index",
+                            Condition::And(..) => "range",
+                            _ => "scan",
+                        };
+                        let missing: Vec<&u64> = want.difference(&got).take(5).collect();
+                        let surplus: Vec<&u64> = got.difference(&want).take(5).collect();
+                        r.violation(
+                            format!("scanrace:query-differs-from-table[{}]", path),
+                            describe(&format!("after everything ended, select {:?} returns {} rows; {} rows of the table satisfy it (missing {:?}, surplus {:?}, duplicates {})", c, ids.len(), want.len(), missing, surplus, ids.len() - got.len())),
+                            replay,
+                        );
+                        return;
+                    }
+                    r.count("scanrace_index_queries", 1);
+                }
+                Err(er) => {
+                    r.violation("scanrace:select-failed", describe(&format!("{:?}: {:?}", c, er)), replay);
+                    return;
+                }
+            }
+        }
+        // ---- evidence
+        let b_ok_spans: Vec<(u64, u64)> = b_out.attempts.iter().filter(|a| a.2.is_some()).map(|a| (a.0, a.1)).collect();
+        let mut nested = 0u64;
+        for ((id, _, _), o) in a_plans.iter().zip(a_outs.iter()) {
+            let row_matched = cond.evaluate(&mk_row(*id, &rows[id]));
+            for (t0, t1, committed) in &o.spans {
+                if *committed && row_matched && b_ok_spans.iter().any(|(b0, b1)| b0 < t0 && t1 < b1) {
+                    nested += 1;
+                }
+            }
+            r.count("scanrace_small_writes_applied", o.done.iter().filter(|d| **d).count() as u64);
+            r.count("scanrace_small_write_lock_conflicts", o.conflicts);
+            r.count("scanrace_small_write_row_invisible", o.invisible);
+        }
+        // a small transaction that began after B's successful statement was called and had committed
+        // before that call returned, on a row the statement's condition matched: since B keeps its
+        // locks until it ends, that commit came before B took the row's lock
+        r.count("scanrace_commit_inside_successful_wide_statement", nested);
+        if b_eff.is_none() && b_n.is_some() {
+            r.count("scanrace_commit_inside_wide_statement_then_rollback", nested);
+        }
+        r.count("scanrace_wide_statement_lock_conflicts", b_out.attempts.iter().filter(|a| a.2.is_none()).count() as u64);
+        r.count(
+            match (b_n.is_some(), &b_end) {
+                (false, _) => "scanrace_rounds:wide_statement_refused",
+                (true, BEnd::Rollback) => "scanrace_rounds:rollback",
+                (true, BEnd::Commit) => "scanrace_rounds:commit",
+                (true, BEnd::Implicit) => "scanrace_rounds:non_transactional",
+            },
+            1,
+        );
+        r.count("scanrace_rows_locked_by_wide_statements", b_n.unwrap_or(0) as u64);
+        r.count("scanrace_rounds", 1);
+        let h = hash_combine(hash_combine(case_seed, round as u64), hash_str(&format!("{:?}{:?}", b_out.attempts.iter().map(|a| a.2).collect::<Vec<_>>(), a_outs.iter().map(|o| (o.done.clone(), o.conflicts > 0)).collect::<Vec<_>>())));
+        r.eval(h, b_n.is_some_and(|n| n > 0) && a_outs.iter().any(|o| o.done.iter().any(|d| *d)));
+        if nested > 0 && r.want_sample() {
+            r.sample(json!({"part": "scanrace", "case_seed": case_seed, "round": round, "what": describe("a small transaction committed inside the wide statement's call")}));
+        }
+        // ---- next round starts from what is there (validated above); top the table up
+        rows = expected;
+        while rows.len() < n_rows * 3 / 4 {
+            let vals = fresh_row(&mut next_k, &mut rng);
+            match e.insert(T, to_map(&vals)) {
+                Ok(id) => {
+                    if rows.insert(id, vals).is_some() {
+                        r.violation("insert:reuses-live-row-id", describe(&format!("insert returned id {} which belongs to an existing row", id)), replay);
+                        return;
+                    }
+                }
+                Err(er) => {
+                    r.violation(format!("scanrace:unexpected-error:{}", err_name(&er)), describe(&format!("insert while nothing else runs failed: {:?}", er)), replay);
+                    return;
+                }
+            }
+        }
+    }
+    r.count("programs:scanrace", 1);
+}
+
 /// minimal witness of the known defect (`--probe 1`)
 fn probe() {
     let e = RelationalEngine::with_config(cfg(10_000_000));
@@ -1545,6 +2272,8 @@ fn main() {
         "timeout-partial" => run_timeout_partial(seed, r),
         "rollback-after-expiry" => run_rollback_after_expiry(seed, r),
         "rollback-failing-undo" => run_rollback_with_failing_undo(seed, r),
+        "scanrace" => run_scanrace(seed, false, None, r),
+        "scanrace-big" => run_scanrace(seed, true, None, r),
         other => r.inconclusive(&format!("unknown part {}", other)),
     };
 
@@ -1556,7 +2285,13 @@ fn main() {
         let part = rp["part"].as_str().unwrap_or("seq").to_string();
         let seed = rp["case_seed"].as_u64().expect("case_seed");
         // a threaded case depends on the scheduler: give it a few attempts
-        let tries = if part == "threads" { 200 } else { 1 };
+        let tries = if part == "threads" {
+            200
+        } else if part.starts_with("scanrace") {
+            12
+        } else {
+            1
+        };
         for _ in 0..tries {
             let res = std::panic::catch_unwind(std::panic::AssertUnwindSafe(|| one(&part, seed, &mut total)));
             if let Err(e) = res {
@@ -1617,6 +2352,15 @@ fn main() {
                 let rep = par_cases((args.threads / 4).max(1), args.seed ^ 0x7A, n, args.budget(15, 240), |_i, s, r| run_threads(s, r));
                 total.merge(rep);
             }
+            if want("scanrace") {
+                // each case runs 2-4 threads of its own; thorough also uses larger tables
+                let n = args.by_tier(400u64, 30_000u64);
+                let big = !args.quick();
+                let budget = args.budget(8, 240);
+                let stop_at = Instant::now() + budget;
+                let rep = par_cases((args.threads / 3).max(1), args.seed ^ 0x5C, n, budget, |i, s, r| run_scanrace(s, big && i % 2 == 1, Some(stop_at), r));
+                total.merge(rep);
+            }
             if let Some(h) = th {
                 if let Ok(r) = h.join() {
                     total.merge(r);
@@ -1639,19 +2383,31 @@ fn main() {
         if want("threads") {
             floors.extend([("programs:threads", 20u64), ("threads_lock_conflicts", 50), ("threads_writes", 2_000)]);
         }
+        if want("scanrace") {
+            floors.extend([
+                ("scanrace_rounds", 25u64),
+                ("scanrace_rounds:rollback", 10),
+                ("scanrace_target_rows_judged", 40),
+                ("scanrace_index_queries", 300),
+                ("scanrace_small_write_lock_conflicts", 20),
+                ("scanrace_commit_inside_successful_wide_statement", 3),
+                ("scanrace_commit_inside_wide_statement_then_rollback", 1),
+            ]);
+        }
         if want("timeout") {
             floors.extend([("timeout_release_seen", 1u64), ("timeout_partial_other_lock_survives_takeover", 2), ("timeout_partial_locks_gone_after_sweep_and_end", 2), ("rollback_after_expiry_restored", 4), ("timeout_takeover_lock_released_when_new_holder_ends", 1)]);
         }
     }
     let meta = Meta {
         property: "C09",
-        rule: "one evaluation = one executed program (seq: one transaction at a time; interleave: 2-4 transactions in a random single-threaded interleaving; threads: 2-8 real threads; timeout: lock expiry, take-over of an expired lock while the old holder ends, take-over of ONE expired lock of a transaction whose other lock is still fresh, the expired-lock sweep followed by the end of the transaction, rollback after the transaction's own locks expired, and rollback with an undo step that cannot be carried out) that passed every per-step check; distinct by hash of the executed statement trace; non-trivial when it contains >=3 transactional statements and at least one finished transaction (threads: at least one lock conflict occurred)",
+        rule: "one evaluation = one executed program (seq: one transaction at a time; interleave: 2-4 transactions in a random single-threaded interleaving; threads: 2-8 real threads; timeout: lock expiry, take-over of an expired lock while the old holder ends, take-over of ONE expired lock of a transaction whose other lock is still fresh, the expired-lock sweep followed by the end of the transaction, rollback after the transaction's own locks expired, and rollback with an undo step that cannot be carried out; scanrace: one round = one wide multi-row statement of a transaction that then commits or rolls back, raced by 1-3 threads of small single-row transactions on rows it matches, judged when all have ended) that passed every per-step check; distinct by hash of the executed statement trace; non-trivial when it contains >=3 transactional statements and at least one finished transaction (threads: at least one lock conflict occurred; scanrace: the wide statement succeeded on >=1 row and at least one small write was applied)",
         assumptions: vec![
             "per-step state checks only judge rows no active transaction has touched, so they hold under any isolation level; whole-table, index-battery and lock-table checks run whenever no transaction is active".into(),
             "a write whose condition matches a row *updated* by another active transaction must fail with LockConflict; for rows *inserted* or *deleted* by another active transaction either LockConflict or 'row not visible' is accepted, but actually modifying such a row is a violation".into(),
             "one program in four runs with max_btree_entries = (ordered-index keys after the initial load) + 0..2, so inserts/updates legitimately fail half-way with ResultTooLarge; a transaction that saw such a failure is only ever rolled back (the statement says nothing about committing after a failed statement) and its rows count as touched until then; a failed non-transactional insert/update (internal transaction rolled back by the engine) must leave the table unchanged immediately; index answers are compared at the next point where no transaction is active".into(),
             "value pools avoid -0.0 and omitted nullable columns (known C04 index defects) so that index answers can be compared with Condition::evaluate".into(),
             "lock/transaction timeouts are ~115 days except in the timeout part (1 s; conflict demanded only within 0.3 s - 0.85 s for the partial-expiry scenario -, release demanded only after 10 s)".into(),
+            "scanrace: all writers take row locks and the small writers retry until they are applied or the wide transaction has ended, so per row the final state must be one that some order of the statements explains; after a rollback (or a refused statement) of the wide transaction that is exactly what the small transactions committed. No isolation level is demanded: the wide statement may also act on a row that matched its condition in an earlier state of that order, rolled-back small writes never touch the columns the wide condition reads, and 'row not visible' (Ok(0)) while the wide transaction has a delete pending is retried, not judged. The counter scanrace_commit_inside_successful_wide_statement counts small transactions on a matching row that began after the wide statement's call started and had committed before it returned (ticks of one atomic counter) - since the wide transaction keeps its locks until it ends, those commits came before it locked the row. Start offsets derived from a measured table pass only shape the workload".into(),
             "threads: ticks taken right after a successful tx_update lie inside that writer's lock interval; the final value of a row must be the token of the committed write with the largest tick".into(),
         ],
         floors,
